@@ -106,8 +106,9 @@ def ident(t) -> str:
 
 
 class CppEmitter:
-    def __init__(self, ctypes: typing.List[pydsdl.CompositeType]):
+    def __init__(self, ctypes: typing.List[pydsdl.CompositeType], tops=None):
         self.ctypes = ctypes
+        self.tops = tops
 
     def type_functions(self, ct) -> str:
         t = inner(ct)
@@ -163,7 +164,12 @@ class CppEmitter:
         return "\n".join(out)
 
     def emit_meta(self) -> str:
-        L = ["static void do_M(int ti) {\n  switch (ti) {"]
+        L = [
+            "// prints fixed_port_id=<value> if the traits have a FixedPortId member, fixed_port_id=none otherwise",
+            "template <class Tr> static auto vf_print_port_id(int) -> decltype(static_cast<void>(Tr::FixedPortId)) { std::printf(\" fixed_port_id=%llu\", static_cast<unsigned long long>(Tr::FixedPortId)); }",
+            "template <class Tr> static void vf_print_port_id(long) { std::printf(\" fixed_port_id=none\"); }",
+            "static void do_M(int ti) {\n  switch (ti) {",
+        ]
         for k, ct in enumerate(self.ctypes):
             t = inner(ct)
             n = cpp_type_name(t)
@@ -172,6 +178,12 @@ class CppEmitter:
             L.append(f'    std::printf(" has_fixed_port_id=%d is_service=%d", static_cast<int>({n}::_traits_::HasFixedPortID), static_cast<int>({n}::_traits_::IsServiceType));')
             if t.has_fixed_port_id and not t.has_parent_service:
                 L.append(f'    std::printf(" fixed_port_id=%llu", static_cast<unsigned long long>({n}::_traits_::FixedPortId));')
+            from .emit_c import service_of
+
+            svc = service_of(t, self.tops) if t.has_parent_service else None
+            if svc is not None and svc.has_fixed_port_id:
+                # C++ exports a service's port-ID through the traits of its request and response types only
+                L.append(f'    vf_print_port_id<{n}::_traits_>(0);')
             if isinstance(t, pydsdl.UnionType):
                 L.append(f'    std::printf(" union_option_count=%zu", static_cast<std::size_t>({n}::VariantType::MAX_INDEX));')
             for c in t.constants:
